@@ -2,7 +2,7 @@
 use crate::codec::*;
 use crate::gen::*;
 use crate::rng::Rng;
-use hifitime::leap_seconds::{LatestLeapSeconds, LeapSecondsFile};
+use hifitime::leap_seconds::{LatestLeapSeconds, LeapSecond, LeapSecondsFile};
 use hifitime::{Duration, Epoch, TimeScale, TimeSeries, Unit, Weekday};
 use std::cmp::Ordering;
 use std::io::Write;
@@ -258,6 +258,18 @@ pub fn inputs_c05(r: &mut Rng, n: usize, _tier: &str, out: &mut dyn Write) {
 
 pub fn inputs_c06(r: &mut Rng, n: usize, tier: &str, out: &mut dyn Write) {
     let leaps = leap_ts();
+    // the table through the Iterator protocol: after every number of forward steps, each reading method
+    for which in ["builtin", "file"] {
+        for k in 0..=43usize {
+            for m in ["last", "count", "rest", "min", "max"] {
+                if k % 3 == 0 || m == "last" {
+                    writeln!(out, "lsiter {} {} {} 0", which, k, m).unwrap();
+                }
+            }
+            writeln!(out, "lsiter {} {} nth {}", which, k, (k * 7 + 3) % 45).unwrap();
+        }
+        writeln!(out, "lsiter {} 0 rev 0", which).unwrap();
+    }
     // systematic part: every second in +/- 40 s of each entry, both directions, plus ns edges
     let mut emitted = 0usize;
     let span: i128 = if tier == "thorough" { 40 } else { 40 };
@@ -1303,6 +1315,36 @@ pub fn exec(op: &str, a: &[&str]) -> Option<String> {
                     .collect(),
             };
             Some(format!("ok {}", entries.join(",")))
+        }
+        // "LatestLeapSeconds iteration": the table read through the Iterator protocol after k forward steps
+        // (last / count / nth / the rest), and a fresh provider read backwards; next to the full forward listing
+        "lsiter" => {
+            fn show(l: LeapSecond) -> String {
+                format!("{}/{}/{}", f2s(l.timestamp_tai_s), f2s(l.delta_at), b2s(l.announced_by_iers))
+            }
+            fn run<I: DoubleEndedIterator<Item = LeapSecond> + Clone>(fresh: I, k: usize, method: &str, j: usize) -> String {
+                let full: Vec<String> = fresh.clone().map(show).collect();
+                let mut it = fresh.clone();
+                for _ in 0..k {
+                    it.next();
+                }
+                let got: Vec<String> = match method {
+                    "last" => it.last().map(show).into_iter().collect(),
+                    "count" => vec![it.count().to_string()],
+                    "nth" => it.nth(j).map(show).into_iter().collect(),
+                    "rest" => it.map(show).collect(),
+                    "min" => it.min_by(|a, b| a.timestamp_tai_s.partial_cmp(&b.timestamp_tai_s).unwrap()).map(show).into_iter().collect(),
+                    "max" => it.max_by(|a, b| a.timestamp_tai_s.partial_cmp(&b.timestamp_tai_s).unwrap()).map(show).into_iter().collect(),
+                    // a fresh provider read backwards (k ignored)
+                    _ => fresh.rev().map(show).collect(),
+                };
+                format!("ok {} {}", if got.is_empty() { "-".to_string() } else { got.join(",") }, full.join(","))
+            }
+            let (k, j): (usize, usize) = (a[1].parse().unwrap(), a[3].parse().unwrap());
+            Some(match a[0] {
+                "file" => run(file_provider(), k, a[2], j),
+                _ => run(LatestLeapSeconds::default(), k, a[2], j),
+            })
         }
         // ---- C12
         "eeq" => Some(format!("ok {}", b2s(s2e(a[0]) == s2e(a[1])))),
